@@ -36,6 +36,21 @@ ROUND1 = {  # verdict of the checks as they stood when the change was first eval
  "R2-C18-1": ("missed", ""), "R2-C18-2": ("missed", ""), "R2-C19-1": ("missed", ""), "R2-C19-2": ("missed", ""),
  "R2-C20-1": ("missed", ""), "R2-C20-2": ("missed", ""),
 }
+for _p in range(1, 21):
+    _k = "C%02d" % _p
+    ROUND1["R3-%s-1" % _k] = ("caught", "")
+    ROUND1["R4-%s-1" % _k] = ("caught", "")
+ROUND1.update({
+ # third batch: first evaluated against the redesigned checker of DESIGN §10
+ "R3-C07-1": ("missed", ""), "R3-C08-1": ("missed", ""), "R3-C09-1": ("missed", ""),
+ "R3-C13-1": ("caught by accident", "C13.R1/R2 undecided: the deviation measure was renamed and squared, the oracle no longer recognised it"),
+ "R3-C17-1": ("caught by accident", "C17.R1 undecided: the emission path was not interpretable"),
+ # fourth batch: first evaluated against the checker as it stood after the BN2 corrections (DESIGN §11)
+ "R4-C04-1": ("caught (as undecided)", "C04.R1: the changed test multiplies side lengths, which the order domain cannot follow; the defect itself (underflow / Inf·0) is outside exact arithmetic"),
+ "R4-C13-1": ("caught (as undecided)", "C13.R5: 0/0 on a degenerate segment was ⊤ in the symbolic domain"),
+ "R4-C17-1": ("caught (as undecided)", "C17.R1/R2: the integer fast path is not a float formatting the model knows; the defect itself (int64 overflow above 2^63) is a range matter"),
+ "R4-C19-1": ("missed", "(C12.R4 reports it: the change is in the R-tree helper that C12 anchors; C19's model network is too small for that helper's pruning to run)"),
+})
 STRENGTHENED = {
  "C01-1": "C01.R4 now covers Difference/Union/XOr/Intersection of *Bounds with an opaque polygon and answers every shape query (Within, point-in-polygon) in every possible way: a shortcut result must follow from the box relation alone",
  "C03-1": "new axis-discipline rule (C04.R5, premise C03.R5): no comparison relates an X ordinate to a Y ordinate",
@@ -93,7 +108,21 @@ STRENGTHENED.update({
  "R2-C03-2": "C03.R3 model: op.Area of a multi-polygon whose members are wound in opposite directions",
 })
 
+STRENGTHENED.update({
+ "R3-C07-1": "interpreter: sized-integer wrap-around (uint32 products) and readers that report a remaining length; the C07 model then reaches the allocation sized by a wrapped product",
+ "R3-C08-1": "new C08.R6: angle-normalising helpers found by behaviour and held to identity on the principal interval, period 2π, oddness",
+ "R3-C09-1": "new C09.R9: classification and unit conversion of +towgs84 lists against proj4js, by model evaluation with symbolic values",
+ "R3-C13-1": "the C13 deviation oracle recognises any (Point,Point,Point) float64 measure by signature and answers the comparison made with it, whatever its name or power",
+ "R3-C17-1": "C17 model: emission through helper writers interpreted; reported as a violation of the text, not as undecided",
+ "R4-C13-1": "symbolic domain: 0/0 is NaN (absorbing in products); the segment-distance model reports the degenerate segment as a violation under C13.R5 and C03.R4",
+ "R3-C18-1": "C18.R7 gained the pass protocol with KeepBounds in file order on two documents (one where nothing selected reaches out of the box)",
+ "R2-C16-1": "C16.R6 is decided by the file model alone now: a geometry-only read followed by an attribute read must see its own row",
+ "R2-C20-1": "C20.R7 model: seven-value lists without rotations and without a scale, from both spellings",
+ "R2-C09-2": "the pipeline model (C08.R2 / C09.R8) gained references with a prime meridian and a shifted datum on the same side, through WGS84 in two legs",
+ "R2-C20-2": "C20.R6 is decided by parsing under both map orders",
+})
 NOT_CAUGHT = {
+ "R4-C19-1": "not reported by C19's own check (reported by C12.R4, scale invariance of the nearest-neighbour queries): C19's model network has six nodes, so the node R-tree is a single leaf and the changed pruning never runs",
  "R2-C08-1": "still missed: the scale factor is removed from the wrong term in the LCC inverse (`(RH-(y-Y0))/K0` for `RH-(y-Y0)/K0`) — a formula-level slip; nothing structural distinguishes the two expressions short of composing inverse∘forward algebraically (considered: Laurent-polynomial cancellation of X0/Y0/K0; not built)",
  "R2-C08-2": "still missed: spherical transverse Mercator takes the hemisphere from sign(y) instead of from the foot-point latitude — formula-level",
  "R2-C09-1": "still missed: one-parallel Albers takes its cone constant from sin(lat_0) (a reused local) instead of sin(lat_1) — formula-level; comparison with the bundled proj4js source was rejected as brittle (DESIGN §7)",
@@ -149,9 +178,13 @@ def main():
             f.write(f"| {m['id']} | {m['title'][:90]} | {m['first_evaluation']['verdict']} | {m['current']['verdict']} | {'; '.join(r.split()[0] for r in m['current']['rules'][:3])} |\n")
         n1 = sum(1 for m in rows if m['first_evaluation']['verdict'].startswith('caught'))
         n2 = sum(1 for m in rows if m['current']['verdict'] == 'caught')
-        r1 = [m for m in rows if not m['id'].startswith('R2-')]
+        r1 = [m for m in rows if not m['id'].startswith('R')]
         r2 = [m for m in rows if m['id'].startswith('R2-')]
-        for nm, rr in (("first batch", r1), ("second batch (written after the first round of strengthening, so it measures generalisation)", r2)):
+        r3 = [m for m in rows if m['id'].startswith('R3-')]
+        r4 = [m for m in rows if m['id'].startswith('R4-')]
+        for nm, rr in (("first batch", r1), ("second batch (written after the first round of strengthening, so it measures generalisation)", r2),
+                       ("third batch (one per property, first evaluated against the redesigned checker of DESIGN §10)", r3),
+                       ("fourth batch (one per property, 'not the first idea that comes to mind'; first evaluated against the checker of DESIGN §11)", r4)):
             a1 = sum(1 for m in rr if m['first_evaluation']['verdict'].startswith('caught'))
             a2 = sum(1 for m in rr if m['current']['verdict'] == 'caught')
             f.write(f"\n{nm}: first evaluation {a1}/{len(rr)} reported, now {a2}/{len(rr)}.\n")
@@ -176,13 +209,21 @@ def main():
                     "ran": ["tools/benign_check.py --all: all 20 quick checks on a scratch copy of /repo with the patch applied"],
                     "current": {"alarms": r.get("alarms", {})},
                 }, open(os.path.join(bd, "meta.json"), "w"), indent=1, ensure_ascii=False)
-            f.write("\n# Independently written behaviour-preserving refactors (BN-*)\n\n"
+            def cnt(prefix):
+                ids = [b for b in br if b.startswith(prefix)]
+                return sum(1 for b in ids if br[b].get("alarms")), len(ids)
+            f.write("\n# Independently written behaviour-preserving refactors (BN-*, BN2-*, BN3-*)\n\n"
                     "Sixty refactors (three per property) written the same way, with the opposite brief: change the code that implements the\n"
                     "property as a maintainer would (extract helpers, change loop idioms, rename, merge or split functions, tables for switches)\n"
                     "without changing behaviour.  Each directory holds `patch.diff` and the author's `README.agent.md`.  Any alarm on one of them is a\n"
                     "false alarm of the machinery.  `tools/benign_check.py` runs the property's own check against each (`--all`: all 20 checks) and\n"
                     "rewrites `BENIGN_RESULTS.json`.\n\n"
-                    f"First run: 43 of the first 53 alarmed (DESIGN.md §10.1).  Now: {alarms} of {len(br)} alarm.\n")
+                    f"First run: 43 of the first 53 alarmed (DESIGN.md §10.1).  Now: {alarms} of {len(br)} alarm.\n\n"
+                    "Two further sets, one refactor per property each, were written later to re-measure (DESIGN.md §11): BN2-* with the same brief\n"
+                    "(8 of the first 15 alarmed when first run; the last 5 were first run after those corrections: 0 of 5) and BN3-* with a brief asking\n"
+                    "for energetic restructuring — state types with methods, method values, table dispatch, pipelines, code moved between files\n"
+                    "(11 of 20 alarmed when first run).\n"
+                    f"Now: BN-* {cnt('BN-')[0]}/{cnt('BN-')[1]}, BN2-* {cnt('BN2-')[0]}/{cnt('BN2-')[1]}, BN3-* {cnt('BN3-')[0]}/{cnt('BN3-')[1]} alarm.\n")
     print(len(rows), "meta files written")
 
 if __name__ == "__main__":
